@@ -11,6 +11,7 @@
 #include <errno.h>
 #include <fcntl.h>
 #include <signal.h>
+#include <sys/resource.h>
 #include <stdio.h>
 #include <stdlib.h>
 #include <string.h>
@@ -98,6 +99,18 @@ int main(int argc, char** argv) {
     if (touch) for (auto& o : s.outs) WriteAll(o, "GARBAGE from failed " + s.id() + "\n");
     printf("%serror: %s failed\n", s.print.c_str(), s.id().c_str());
     rc = code;
+  } else if (verdict.compare(0, 4, "dies") == 0) {
+    // the command is terminated by a signal of its own (a crashing compiler, the OOM killer)
+    int sig = SIGKILL, touch = 0;
+    sscanf(verdict.c_str(), "dies %d %d", &sig, &touch);
+    if (touch) for (auto& o : s.outs) WriteAll(o, "GARBAGE from failed " + s.id() + "\n");
+    fflush(stdout);
+    if (ctl) Touch(string(ctl) + "/done." + id);
+    struct rlimit rl = {0, 0};
+    setrlimit(RLIMIT_CORE, &rl);
+    signal(sig, SIG_DFL);
+    raise(sig);
+    return 99;   // not reached for a fatal signal
   } else if (verdict.compare(0, 6, "sigint") == 0) {
     for (auto& o : s.outs) WriteAll(o, "GARBAGE from failed " + s.id() + "\n");
     if (ctl) Touch(string(ctl) + "/done." + id);
